@@ -132,7 +132,9 @@ def relerr(a, b, floor=1e-300):
 
 
 def entry_floor(grid, fam, op):
-    """Absolute floor for matrix entries of an operator on `grid` (1e-10 x natural magnitude D^p)."""
+    """Scale floor for matrix entries of an operator on `grid`: 1e-4 x the natural magnitude D^p. It is used as a lower bound of the
+    *denominator* of relative errors, so a tolerance of 1e-10 still allows absolute differences of 1e-14 D^p: matrices that vanish
+    identically (Maxwell M between coplanar elements) carry amplified rounding noise of 1e-17..1e-15 D^p that must not be read as an error."""
     D = float(np.linalg.norm(grid.bounding_box[:, 1] - grid.bounding_box[:, 0]))
     p = {"V": 3, "K": 2, "Kp": 2, "W": 1, "E": 2, "M": 2, "I": 2, "LB": 0}.get(op, 2)
-    return 1e-10 * D**p
+    return 1e-4 * D**p
